@@ -29,6 +29,15 @@ def _explore_one(args):
     elif how == "sched":
         for s in amount:
             r = pl1.run_schedule(cfg, s); on_run(r, s)
+    elif how in ("lifo", "fifo"):
+        # directed schedules: at every poll the newest (oldest) ready batch completes, everything else takes its default - the
+        # batches at the other end stay pending for the whole run
+        import warnings
+        def chooser(kind, n, info): return (n - 1 if how == "lifo" else 0) if kind == "poll" else 0
+        with warnings.catch_warnings():
+            warnings.simplefilter("ignore")
+            r = pl1.Run(cfg, chooser).execute()
+        on_run(r, [c for _, c, _ in r.choices])
     else:
         rng = random.Random(seed)
         for bias in (0.15, 0.5, 0.85):
